@@ -66,6 +66,34 @@ def run(ctx):
                       "or dest is shifted; data seeded")
     for row in rows[:1] + rows[len(rows) // 2:len(rows) // 2 + 1]:
         ev.sample({k: (v if not isinstance(v, list) or len(v) < 40 else v[:40] + ["..."]) for k, v in row.items()})
+    # ---- bash: bashHash one-shot (bash.h: buffers may overlap), driven through the bash driver
+    try:
+        bdrv = vlib.harness("drv_bash", ["drv_bash.c"], "asan")
+        bcmds = []
+        for l in (128, 256):
+            hl = l // 4
+            for ln in (0, 1, 40, 150):
+                offs = sorted(set(list(range(-(hl + 4), ln + 5, 1 if ctx.quick and ln < 50 or not ctx.quick else 7)) + [0, 1, -1, ln - hl, ln]))
+                if ctx.quick:
+                    offs = [o for i, o in enumerate(offs) if (i + ctx.seed) % 2 == 0 or abs(o) <= 1]
+                for o in offs:
+                    bcmds.append("overlap f=bashHash l=%d len=%d doff=%d\n" % (l, ln, o))
+        bout = ctx.path("bash_overlap.ndjson")
+        rc, _, err = vlib.run_harness(bdrv, ["overlap"], stdin="".join(bcmds).encode(), out_path=bout, env={"VERIF_SEED": ctx.seed}, timeout=600)
+        brows = [json.loads(l) for l in open(bout) if l.strip().endswith("}")]
+        if rc != 0:
+            ctx.violation("overlap-crash:bashHash", "bashHash crashed on an overlapping placement: %s" % err[-1200:], err[-4000:])
+        nb, badb, rb = vlib.validate_lines(ctx, "Trace_Bash", brows, timeout=1500)
+        if nb < len(brows):
+            ctx.note_inconclusive("Trace_Bash evaluated %d of %d bashHash placements" % (nb, len(brows)))
+        for i in badb:
+            ctx.violation("bashHash:%s" % brows[i - 1].get("cls", i), "bashHash with hash overlapping src differs from the disjoint-buffer result", {"line": brows[i - 1]})
+        ev.cov["evaluations"] += nb
+        ev.cov["traces_validated_against_impl"] += nb
+        ev.cov["distinct_nontrivial"] += len(brows)
+        ev.cov["functions"].append("bashHash")
+    except (FileNotFoundError, vlib.BuildError) as e:
+        ev.cov["bash_overlap"] = "not available: %s" % str(e)[:100]
     # binding self-test
     mut = []
     for row in [x for x in rows if x.get("rc") == 0 and x.get("out")][:4000:500]:
@@ -76,5 +104,5 @@ def run(ctx):
         ev.cov["selftest_rejected"] = len(bad2)
         if n2 == len(mut) and len(bad2) != len(mut):
             ctx.note_inconclusive("binding self-test failed")
-    ev.assume("ECB one-shots, bash, brng and DER helpers: ECB's header makes no overlap statement (not driven); the others are added with their drivers")
+    ev.assume("ECB one-shots: the header makes no overlap statement (not driven); brng one-shots and DER encoders are not yet driven")
     ev.assume("KWP wrap with src overlapping header is rejected by the implementation with ERR_BAD_INPUT and is treated as forbidden")
